@@ -119,10 +119,11 @@ def make_db_hook(cfg):
                         problem("empty-rule-for-nonempty", f"label {lab} = {classdb.get_class(lab)!r} got an empty rule")
             # labels <-> classes is a bijection, cached emptiness is the truth
             cl = [classdb.get_class(i) for i in range(len(classdb.comb_class_list))]
+            first_label: dict = {}
             for i in range(len(cl)):
-                for j in range(i + 1, len(cl)):
-                    if cl[i] == cl[j]:
-                        problem("label-bijection", f"labels {i} and {j} carry equal classes {cl[i]!r}")
+                j = first_label.setdefault(cl[i], i)
+                if j != i:
+                    problem("label-bijection", f"labels {j} and {i} carry equal classes {cl[i]!r}")
                 if classdb.get_label(cl[i]) != i:
                     problem("label-bijection", f"get_label(get_class({i})) = {classdb.get_label(cl[i])}")
                 e = classdb.empty_list[i]
@@ -212,7 +213,7 @@ def _worker(arg) -> Acc:
     cfgj, tier = arg
     cfg = Cfg.from_json(cfgj)
     acc = Acc()
-    ce = ConfigExplorer(acc, cfg, tier, [checker], db_hook=make_db_hook(cfg), bound=bound_for(cfg, tier), bound2_max_points=24)
+    ce = ConfigExplorer(acc, cfg, tier, [checker], db_hook=make_db_hook(cfg), bound=bound_for(cfg, tier), bound2_max_points=16, horizon=60 if tier == "quick" else 80, light_bound1=True)
     ce.explore_e2()
     if hash(cfg.sid()) % 301 == 0:
         acc.sample({"configuration": cfg.sid(), "outcomes": ce.outcomes})
@@ -229,8 +230,8 @@ def run(ctx: Ctx) -> None:
         "execution is one evaluation; non-trivial = distinct (configuration, strategy kinds recorded, number of insertions)"
     )
     ctx.assumptions = ["emptiness judged by the domain's exact predicate; every rule met passes the domain gate (set arithmetic, sizes <= %d)" % GATE_N]
-    ctx.bounds = {"configurations": len(cfgs), "deviations": 1 if ctx.quick else "2 on the quick tier's configurations (default execution <= 24 decision points), 1 on the extension",
-                  "horizon_packets": 60 if ctx.quick else 150}
+    ctx.bounds = {"configurations": len(cfgs), "deviations": 1 if ctx.quick else "2 on the quick tier's configurations (default execution <= 16 decision points), 1 on the extension",
+                  "horizon_packets": 60 if ctx.quick else 80}
     ctx.pmap(_worker, [(c.to_json(), ctx.tier) for c in cfgs], chunksize=2)
 
 
